@@ -773,3 +773,15 @@ def root_views(fns):
             continue
         out.append((f, inlined_body(f, by_pat, depth=3) if f.get("rect") else f["body"]))
     return out
+
+
+def stmts_flat(s):
+    """top-level statements with nested plain blocks (e.g. the body of a helper seen through by inlined_body) spliced in: for
+    rules about the ORDER of statements on the straight-line spine of a function"""
+    out = []
+    for x in stmts_of(s):
+        if isinstance(x, dict) and x.get("k") == "Block":
+            out.extend(stmts_flat(x))
+        else:
+            out.append(x)
+    return out
